@@ -74,7 +74,12 @@ class QMap(afmformats.AFMQMap):
                   cache=False)
     def feat_meta_rating(idnt):
         """Rating"""
-        if idnt._rating is None:
+        # The cached rating belongs to the fit it was computed for
+        # (see `Indentation.rate_quality`).
+        curhash = idnt.fit_properties.get("hash", "none")
+        if (idnt._rating is None
+            or not idnt.fit_properties.get("success", False)
+                or idnt._rating[0] != curhash):
             msg = "The experimental data has not been rated. Please call " \
                   + "`idnt.rate_quality` manually for {}!".format(idnt)
             warnings.warn(msg, DataMissingWarning)
